@@ -51,6 +51,9 @@ CHECKS = {
  "C14": dict(cat="exploration", ref="DESIGN.md 4/C14", tech="property-based differential testing of integer versus packed-byte delivery at stream level and over generated fill histories on one FrameBuf/Context, with a verbatim-dump decode as content oracle",
    text="(a) Generated (config, input) with 1..=8 channels and 1..=3 bytes per sample are encoded from an integer-fill source, a byte-fill source and MemSource in single-thread, multi-thread and frame-level mode; the streams must be byte-identical. (b) Generated fill histories (2..=6 fills, lengths capacity / 1..capacity / 0 / 1 / capacity-d) deliver the same blocks as integers to one FrameBuf and as packed little-endian bytes (native width or 4 bytes per sample) to another; after every fill filled_size, the Context (MD5, sample count, frame number) and the frames encoded from both buffers and from a brand-new buffer must agree, and a verbatim-only frame must decode (reference decoder) to exactly the delivered block.",
    note="Source contract assumed: full blocks except the last, one fill call per read; byte fills into a Context use the Context's own byte width (mismatches are property C17)."),
+ "C17": dict(cat="exploration", ref="DESIGN.md 4/C17", tech="complete boundary/wrap-around argument grids for every public entry point plus property-based generated positions and amounts, with an Err-or-faithful oracle (reference decoder, MD5) and a required-Err oracle for arguments without a faithful reading",
+   text="Complete grids {0, min-1, min, max, max+1, 2^8+k, 2^16+k, 2^32+k, usize::MAX}: the full product rate x channels x bits for StreamInfo::new / Stream::new, the full product channels x size for FrameBuf::with_size, fills of FrameBuf / Context / their pair with capacity+extra samples as integers and bytes and byte widths 0..=5, 8, 9, 255, 2^32+2, usize::MAX, encode_with_fixed_block_size in single- and multi-thread mode from a source declaring grid values (one argument at a time; pairs in the thorough tier) with grid block sizes, over-long reads, wrong byte widths and samples outside the width, and encode_fixed_size_frame over a frame-number grid and with out-of-width samples; plus proptest-generated widths, positions and over-fill amounts. Oracle: Err, or a result that states exactly the given values (accessors, serialised STREAMINFO, decoded audio, MD5, frame number); never a panic, hang or reinterpreted value; Err is required for over-fills, disagreeing byte widths, samples outside the width, frame numbers >= 2^31 and block sizes outside 32..=32767.",
+   note="Widths 4n / 4n+1 in 4..=25 other than 8/12/16/20/24 are accepted by the library's own verification (side-channel allowance); for those the faithful branch applies. A multi-thread call that does not return within 60 s is inconclusive, not a violation. Ragged fills (length not a multiple of the channel count or byte width) are not part of the property and are not generated."),
 }
 
 NOT_YET = {}
